@@ -112,6 +112,7 @@ func (e *Engine) verifyFunc(name, prop string, safety bool) *FuncResult {
 		}
 	}
 	entryGuard := st.guard
+	fr.entryGuard = entryGuard
 	results, out, err := fr.execBody(st)
 	if err != nil {
 		res.Err = err
